@@ -23,4 +23,29 @@ def toBalanceZ (p : Nat) (n : Int) : Int := convert n (factor p) (decide (p < 8)
 def toFixed8 (p : Nat) (n : Int) : Int := wrap64 (toFixed8Z p n)
 def toBalance (p : Nat) (n : Int) : Int := wrap64 (toBalanceZ p n)
 
+/-! ### Concurrent use
+
+`innerring.New` makes ONE converter and hands it BY VALUE to the balance processor and to the neofs
+processor; each of them converts amounts from its own worker pool.  A converter holds only its two
+precisions and the factor, a conversion reads them and allocates its operands (`new(big.Int)`), so a
+conversion is a function of (precision, direction, amount) and of nothing else: whatever the workers do
+at the same moment, in whatever order, every request gets the result it gets when run alone. -/
+
+/-- one conversion request: direction (`true` = Fixed8 → balance precision) and amount -/
+structure Task where
+  toBal : Bool
+  n : Int
+  deriving Repr, DecidableEq
+
+/-- the result of one request through a converter of balance precision `p` -/
+def eval (p : Nat) (t : Task) : Int := if t.toBal then toBalance p t.n else toFixed8 p t.n
+
+/-- the requests of `tasks` completed in the order `sched` (indices into `tasks`, any order, any
+repetition — the workers repeat conversions): the list of (request index, result) pairs. -/
+def runSched (p : Nat) (tasks : List Task) (sched : List Nat) : List (Nat × Int) :=
+  sched.filterMap fun i => (tasks[i]?).map fun t => (i, eval p t)
+
+/-- the sequential run: request after request -/
+def runSeq (p : Nat) (tasks : List Task) : List Int := tasks.map (eval p)
+
 end NeoFS.Precision
